@@ -148,6 +148,30 @@ def helper_role(F, key):
     return None
 
 
+MU_WRITE = "<core::mem::maybe_uninit::MaybeUninit<T>>::write"
+
+
+def slot_iter_place(F, B, t):
+    """For `slot.write(v)` (MaybeUninit::write) whose `slot` is the item of a slice iterator - `for slot in place.iter_mut()` -
+    return the expression of `place` (the slice being walked), else None."""
+    if atomics.callee_of(t) != MU_WRITE or len(t["args"]) != 2:
+        return None
+    from . import balance as _bal
+
+    priv = lambda k: not _bal.is_api(F, F.body(k))
+    se = nobb(symx.normalize_calls(F, symx.expr(F, B, t["args"][0]), priv))
+    sn = []
+    find_calls(se, lambda e: e[2] == "next" and "slice::iter::IterMut" in e[1], sn)
+    if not sn:
+        return None
+    src = []
+    find_calls(sn[0], lambda e: e[2] in ("into_iter", "iter_mut"), src)
+    place = src[0][3][0] if src and src[0][3] else None
+    while place is not None and place[0] == "call" and place[2] in ("into_iter", "iter_mut") and place[3]:
+        place = place[3][0]  # `IntoIterator::into_iter(<[_]>::iter_mut(place))`
+    return place
+
+
 def _roots(B, l, seen):
     """Argument indices a local derives from (moves, reborrows, casts)."""
     if l in seen:
@@ -224,6 +248,16 @@ def analyse(F, E, b, alloc_len_expr, make_bbs):
             d = slot_dst(symx.expr(F, B, t["args"][0]))
             if d is not None:
                 writes.append((bi, t, d))
+    if not writes:
+        # the slot-driven family: `for slot in <the block's whole slice as &mut [MaybeUninit<T>]> { slot.write(item) }` - the
+        # loop is driven by a slice iterator over the slots themselves, so it ends exactly when every slot has been visited
+        for bi, t in B.calls():
+            if bi in loop and atomics.callee_of(t) == MU_WRITE:
+                place = slot_iter_place(F, B, t)
+                if place is None:
+                    continue
+                whole = slot_dst(place) == ("fixed",)
+                writes.append((bi, t, ("slotiter", whole)))
     info["loop_blocks"] = len(loop)
     info["sources"] = [c[0] for _b, _t, c in nexts]
     if not loop:
@@ -245,7 +279,10 @@ def analyse(F, E, b, alloc_len_expr, make_bbs):
         return viol, unsup, info
     (ubi, ut, uc), (wbi, wt, wd) = user[0], writes[0]
     # cursor discipline
-    if wd[0] == "induction":
+    if wd[0] == "slotiter":
+        if not wd[1]:
+            unsup.append("the slots the loop iterates over are not visibly the block's whole slice")
+    elif wd[0] == "induction":
         step = symx.expr(F, B, wt["args"][0])
         st = _find_induction(step)
         if st is None or st[2] != 1:
@@ -271,7 +308,9 @@ def analyse(F, E, b, alloc_len_expr, make_bbs):
                 from .props import c06 as _c06
 
                 ranges.append([_c06.norm_block_len(nobb(symx.expr(F, B, o)), data_name) for o in s["rv"]["ops"]])
-    if uc[0] in ("direct",):
+    if wd[0] == "slotiter":
+        bound_ok = bool(wd[1]) and uc[0] == "direct"  # one slot per iteration, all of them: the bound is the slice's own length
+    elif uc[0] in ("direct",):
         if len(counters) == 1 and any(r[0] == ("const", 0) and r[1] == L for r in ranges):
             bound_ok = True
     elif uc[0] == "zip-range-first":
